@@ -80,7 +80,7 @@ Definition monitor (c : case) : list N :=
   (if c_valid c && negb (snd (o_key o) && sb_eqb (o_key2 o) (o_key o)) then [5] else []) ++
   (if c_valid c then
      flat_map (fun vk => if sb_eqb (snd vk) (o_key o) then []
-                         else if has_upper_ace (fst vk) then [102] else [6])
+                         else [6])
               (combine (c_variants c) (o_var_keys o))
    else []) ++
   (if c_valid c && snd (o_toa o) && negb (sb_eqb (o_tou_toa o) (a, true)) then [7] else []).
